@@ -89,6 +89,7 @@ type Obl struct {
 	File    string
 	Trivial bool
 	DefNames []string
+	DefBodies []*Term
 	ExtraAsserts []string
 }
 
@@ -139,6 +140,8 @@ type Exec struct {
 	globalPC  []*Term
 	usedLemmas map[string]bool
 	axiomsOnly bool
+	defTerms   map[string]*Term // bodies of the SMT-defined spec functions (for symbol collection)
+	quiet      int // > 0: obligations are not recorded (dry runs of loop bodies)
 }
 
 // frame: one (possibly inlined) function activation.
@@ -164,6 +167,9 @@ func (x *Exec) alloc() int {
 }
 
 func (x *Exec) addObl(kind, name string, st *State, goal *Term, where string) {
+	if x.quiet > 0 || x.inGlobalInit > 0 {
+		return
+	}
 	if goal.IsTrue() {
 		x.trivial++
 		return
